@@ -336,6 +336,150 @@ fn check_sequence<T: Sc>(ctx: &Ctx, cfg: &Cfg, seq: &[Call], tally: &mut (u64, u
     }
 }
 
+
+// ------------------------------------------------------------------------------------------------
+// value grid: the requirements of build() are requirements on SHAPES; for consistent shapes every VALUE of the
+// observations, the weights and the threshold is accepted (and nothing panics or hangs)
+
+/// the special values of one scalar width, as f64 (converted with `T::f`)
+fn special_values(f32_: bool) -> Vec<f64> {
+    if f32_ {
+        vec![0.0, -0.0, -1.0, 1.4e-45, 1.1754944e-38, 1.1920929e-7, 1e-18, 1e10, 1e20, -1e20, 3.4028235e38, f64::INFINITY, f64::NEG_INFINITY, f64::NAN]
+    } else {
+        vec![0.0, -0.0, -1.0, 5e-324, 2.2250738585072014e-308, 2.220446049250313e-16, 1e-18, 1e10, 1e160, -1e160, 1.7976931348623157e308, f64::INFINITY, f64::NEG_INFINITY, f64::NAN]
+    }
+}
+
+/// pattern 0 = the base vector, 1 = every entry the value, 2/3/4 = the value at the first / middle / last position
+fn patterned(base: &[f64], pat: u8, v: f64) -> Vec<f64> {
+    let n = base.len();
+    (0..n)
+        .map(|i| match pat {
+            0 => base[i],
+            1 => v,
+            2 if i == 0 => v,
+            3 if i == n / 2 => v,
+            4 if i == n - 1 => v,
+            _ => base[i],
+        })
+        .collect()
+}
+
+fn enc(v: f64) -> Value {
+    if v.is_finite() {
+        json!(v)
+    } else {
+        json!(format!("{}", v))
+    }
+}
+fn dec(v: &Value) -> f64 {
+    match v {
+        Value::String(s) => s.parse().unwrap(),
+        _ => v.as_f64().unwrap(),
+    }
+}
+
+#[derive(Clone, Copy)]
+struct VCase {
+    ypat: u8,
+    yval: f64,
+    /// 255 = no weights
+    wpat: u8,
+    wval: f64,
+    eps: Option<f64>,
+}
+
+fn check_values<T: Sc>(ctx: &Ctx, cfg: &Cfg, vc: &VCase) {
+    let case = || {
+        json!({"value_grid": true, "mrhs": cfg.mrhs, "par": cfg.par, "model_output_len": cfg.out_len, "tiny_d2": false, "scalar": if cfg.f32_ {"f32"} else {"f64"},
+               "observations": {"pattern": vc.ypat, "value": enc(vc.yval)}, "weights": if vc.wpat == 255 { Value::Null } else { json!({"pattern": vc.wpat, "value": enc(vc.wval)}) },
+               "epsilon": vc.eps.map(enc)})
+    };
+    let n = cfg.out_len;
+    let cols = if cfg.mrhs { 2 } else { 1 };
+    let y0 = ymat::<T>(cfg, n, cols);
+    // the pattern goes into the last column
+    let ycol: Vec<f64> = patterned(&(0..n).map(|i| y0[(i, cols - 1)].d()).collect::<Vec<_>>(), vc.ypat, vc.yval);
+    let y = DMatrix::<T>::from_fn(n, cols, |i, s| if s == cols - 1 { T::f(ycol[i]) } else { y0[(i, s)] });
+    let w: Option<DVector<T>> = if vc.wpat == 255 {
+        None
+    } else {
+        let base: Vec<f64> = wvec::<T>(n, 1).iter().map(|v| v.d()).collect();
+        Some(DVector::from_vec(patterned(&base, vc.wpat, vc.wval).into_iter().map(T::f).collect()))
+    };
+    let eps = vc.eps.map(T::f);
+    let api = if cfg.mrhs { vpmc::prob::Api::Mrhs } else { vpmc::prob::Api::Single };
+    ctx.with(|s| {
+        s.inc("value_grid_builds");
+        s.inc("states");
+        s.inc("evaluations");
+        s.inc("traces_validated");
+        s.add("transitions", 4);
+    });
+    let r = guarded(|| vpmc::prob::build(model::<T>(cfg), &y, w.as_ref(), eps, api, cfg.par).map(|p| observe(p.as_ref())));
+    match r {
+        Err(p) => ctx.with(|s| s.violate("C18", "panic", case(), format!("builder panicked: {}", p))),
+        Ok(Err(e)) => ctx.with(|s| s.violate("C18", "rejected-consistent-inputs", case(), format!("build() returned {} although every requirement (all of them on shapes) is met", e))),
+        Ok(Ok(o)) => {
+            let o: Obs<T> = o;
+            ctx.with(|s| s.inc("distinct_nontrivial"));
+            if o.params.len() != 1 || T::from_bits64(o.params[0]).d() != 1.0 {
+                ctx.with(|s| s.violate("C18", "initial-parameters", case(), "the built problem does not report the model's initial parameters".to_string()));
+            }
+            // benign values (every product representable with room to spare): the initial state is present
+            let benign = |v: f64| v.is_finite() && v.abs() >= 1e-18 && v.abs() <= 1e10;
+            let e_ok = vc.eps.map(|e| e.is_finite() && e.abs() < 1e-3).unwrap_or(true);
+            if ycol.iter().all(|v| benign(*v) || *v == 0.0) && w.as_ref().map(|w| w.iter().all(|v| benign(v.d()) || v.d() == 0.0)).unwrap_or(true) && e_ok && (o.res.is_none() || o.coef.is_none()) {
+                ctx.with(|s| s.violate("C18", "initial-state-absent", case(), "finite moderate inputs, yet the built problem exposes no residuals / coefficients for the initial parameters".to_string()));
+            }
+        }
+    }
+}
+
+fn value_grid(ctx: &Ctx, thorough: bool, block: &mut u64) {
+    for mrhs in [false, true] {
+        for par in [false, true] {
+            for out_len in [5usize, 3] {
+                for f32_ in [false, true] {
+                    if !thorough && (out_len == 3 && (par || mrhs)) {
+                        continue;
+                    }
+                    let cfg = Cfg { mrhs, par, out_len, tiny_d2: false, f32_ };
+                    let vals = special_values(f32_);
+                    let mut pats: Vec<(u8, f64)> = vec![(0, 0.0)];
+                    for v in &vals {
+                        for p in 1..=4u8 {
+                            pats.push((p, *v));
+                        }
+                    }
+                    let mut wp: Vec<(u8, f64)> = vec![(255, 0.0)];
+                    wp.extend(pats.iter().cloned());
+                    let sub = if f32_ { 1.4e-45 } else { 5e-324 };
+                    let epss: Vec<Option<f64>> = if thorough { vec![None, Some(0.0), Some(-0.0), Some(sub), Some(-1e-30), Some(1e-2), Some(f64::INFINITY), Some(f64::NAN)] } else { vec![None, Some(0.0), Some(-1e-30), Some(f64::NAN)] };
+                    for (yp, yv) in &pats {
+                        let mine = ctx.args.mine(*block);
+                        *block += 1;
+                        if !mine {
+                            continue;
+                        }
+                        ctx.begin(*block);
+                        for (wpat, wv) in &wp {
+                            for e in &epss {
+                                let vc = VCase { ypat: *yp, yval: *yv, wpat: *wpat, wval: *wv, eps: *e };
+                                if f32_ {
+                                    check_values::<f32>(ctx, &cfg, &vc)
+                                } else {
+                                    check_values::<f64>(ctx, &cfg, &vc)
+                                }
+                            }
+                        }
+                    }
+                }
+            }
+        }
+    }
+}
+
 fn alphabet(cfg: &Cfg, thorough: bool) -> Vec<Call> {
     let mut v = vec![];
     let big = cfg.out_len >= 100;
@@ -380,6 +524,16 @@ fn main() {
         if let Some(r) = &ctx.args.replay {
             let v: Value = serde_json::from_str(r).unwrap();
             let cfg = Cfg { mrhs: v["mrhs"].as_bool().unwrap(), par: v["par"].as_bool().unwrap(), out_len: v["model_output_len"].as_u64().unwrap() as usize, tiny_d2: v["tiny_d2"].as_bool().unwrap(), f32_: v["scalar"] == "f32" };
+            if v["value_grid"] == true {
+                let (wpat, wval) = if v["weights"].is_null() { (255u8, 0.0) } else { (v["weights"]["pattern"].as_u64().unwrap() as u8, dec(&v["weights"]["value"])) };
+                let vc = VCase { ypat: v["observations"]["pattern"].as_u64().unwrap() as u8, yval: dec(&v["observations"]["value"]), wpat, wval, eps: if v["epsilon"].is_null() { None } else { Some(dec(&v["epsilon"])) } };
+                if cfg.f32_ {
+                    check_values::<f32>(&ctx, &cfg, &vc)
+                } else {
+                    check_values::<f64>(&ctx, &cfg, &vc)
+                }
+                return;
+            }
             let seq: Vec<Call> = v["calls"].as_array().unwrap().iter().map(call_parse).collect();
             let mut t = (0, 0, 0);
             if cfg.f32_ {
@@ -443,6 +597,7 @@ fn main() {
                 }
             }
         }
+        value_grid(&ctx, thorough, &mut block);
         ctx.with(|s| {
             s.add("states", tally.0);
             s.add("evaluations", tally.0);
